@@ -3,6 +3,7 @@ import Tahoe.Codec.Instances
 import Tahoe.Codec.LemmasCall
 import Tahoe.Codec.LemmasRS
 import Tahoe.Codec.LemmasRSBlocks
+import Tahoe.Codec.LemmasLagrange
 /-! C36 — erasure coding recovers from any k blocks (property theorems).
 
 ## Coverage of the statement
@@ -18,7 +19,7 @@ for a segment (including a padded tail segment) decode back to that segment."
 | the caller hands the codec a consistent (id, block) pairing and the right decoder (k, N, padded size) for every arrival order / superset | `decode_paths_factor_through_selection`, `immutable_hands_paired_blocks`, `mutable_hands_paired_prefix`, `immutable_decoder_matches_encoder`, `mutable_decoder_matches_encoder`; tied to the real calls by recording the arguments of `CRSDecoder.decode` (harness `call=` field) |
 | including a padded tail segment (own padded size / codec parameters, trim to the real size) | the tail branches of the two path theorems; `tail_padding_sizes`, `full_segment_sizes` |
 | decode back to *that segment* (exact bytes, padding removed) | conclusions `… = .ok data` / `= seg` of the three main theorems |
-| the erasure code itself recovers (zfec, outside /repo) | **proved for every 1 ≤ k ≤ N ≤ 5 on blocks of bytes of any length, any order: `rs256_mds_small_blocks`** (hence `rs256_any_k_blocks_decode_small` needs no assumption); field laws of the model's GF(2^8) proved for all bytes (`gf256_field_laws`). For N > 5 still the **assumption** `RS256_MDS`, now reduced by `rs256_mds_of_scalar_identity` to a pure byte-level Lagrange identity (`RS256_ScalarIdentity`: no blocks, no lists of blocks; what is missing is the Vandermonde/Lagrange uniqueness argument over the proved field). Toy codes: `mds_instances`. Coefficient level: `rs256_generator_small`. Otherwise byte-exact correspondence with zfec (incl. its matrices) + monitor sampling |
+| the erasure code itself recovers (zfec, outside /repo) | **proved for the transcription `rs256` of zfec's code, every 1 ≤ k ≤ N ≤ 256, blocks of bytes of any length, any k distinct blocks in any order: `rs256_mds`** (= the former assumption `RS256_MDS`, now a theorem; `zfec_code_any_k_blocks_decode`, `immutable_any_k_blocks_decode_rs256`, `mutable_any_k_blocks_decode_rs256` have no code hypothesis). Chain: field laws of the model's GF(2^8) for all bytes (`gf256_field_laws`, structural) → Mathlib `Field` instance → uniqueness of Lagrange interpolation (`Mathlib.LinearAlgebra.Lagrange`) gives the byte-level identity `rs256_scalar_identity` → lifted to blocks by bilinearity (`rs256_mds_of_scalar_identity`). `rs256_generator_is_vandermonde_systematic` proves that the model's encoding matrix E is the one fec.c *specifies*: E·V_top = V for the Vandermonde matrix V of the points 0, 2^0, 2^1, … (so E = V·V_top⁻¹) and the top k×k block of E is the identity. What is still *not* proved: that zfec's C routines (`_invert_vdm`, `_matmul`, its GF tables, its decoder's `_invert_mat`) compute that specification — that tie is correspondence only — byte-exact comparison of every produced/decoded block for k, N up to 256 and of the encoding/decoding matrices themselves (all subsets N ≤ 5, seeded to N = 40). Independent kernel checks kept: `rs256_generator_small`, `rs256_mds_small_blocks`; toy codes: `mds_instances` |
 | Deferred / thread-pool delivery of the result; AES of the mutable path | not covered (outside the model; exercised by the harness) |
 -/
 namespace Tahoe.C36
@@ -379,9 +380,9 @@ example : gatherData 2 2 true [9, 8, 7] = .ok [[9, 8], [7, 0]] := by decide
 
 /-! ### the concrete codes -/
 
-/-- Named assumption: zfec's code (as transcribed in `rs256`) is MDS for every `1 ≤ k ≤ n ≤ 256`.
-Not proved here (zfec is a C extension outside /repo; the transcription is compared byte for byte
-with zfec by the harness, and the law is sampled on every checked case). -/
+/-- zfec's code (as transcribed in `rs256`) is MDS for every `1 ≤ k ≤ n ≤ 256`. Formerly the named
+assumption of C01/C36; now proved below as `rs256_mds`. (That `rs256` is what zfec's C code computes
+remains tied by byte-exact correspondence only.) -/
 def RS256_MDS : Prop := ∀ k n : Nat, 1 ≤ k → k ≤ n → n ≤ 256 → MDS (rs256 k n) k n
 
 /-- C36 for the Reed–Solomon code the repo actually uses, under the named assumption. -/
@@ -472,12 +473,13 @@ example : decodeSegment (rs256 3 5) 3 3 [(4, [0x09]), (0, [0x61]), (3, [0x75]), 
   rs256_any_k_blocks_decode_small 3 5 (by decide) (by decide) (by decide) [0x61, 0x62, 0x63] _
     (by decide) (by decide) (by decide)
 
-/-- What remains assumed for N > 5, stated over the proved field: the byte-level Lagrange identity —
+/-- The byte-level Lagrange identity (proved below for all N ≤ 256 as `rs256_scalar_identity`; it was
+the remaining assumption before the interpolation argument was formalised) —
 for distinct share numbers `ids` (|ids| = k) below `n ≤ 256`, interpolating through the points
 `pt ids_s` the values the systematic encoding rows give to input bytes `v`, and evaluating at the
 primary point `pt m`, returns `v[m]`. It mentions only single bytes; it follows from "a polynomial of
 degree < k over a field is determined by its values at k distinct points" (the 256 points are
-distinct: `rs256_generator_small`), which is not formalised here. -/
+distinct: `rs256_generator_small`). -/
 def RS256_ScalarIdentity : Prop :=
   ∀ k n : Nat, 1 ≤ k → k ≤ n → n ≤ 256 → ∀ ids : List Nat, ids.length = k → ids.Nodup →
     (∀ i ∈ ids, i < n) → ScalarRecover k n ids
@@ -485,6 +487,78 @@ def RS256_ScalarIdentity : Prop :=
 /-- the block-level assumption `RS256_MDS` follows from the byte-level identity, for every k ≤ N ≤ 256 -/
 theorem rs256_mds_of_scalar_identity (h : RS256_ScalarIdentity) : RS256_MDS :=
   fun k n hk hkn hn => rs256_mds_of_scalar k n hk hkn hn (h k n hk hkn hn)
+
+/-- **The byte-level Lagrange identity holds for every 1 ≤ k ≤ N ≤ 256** (uniqueness of polynomial
+interpolation over the field `GF`, Mathlib's `Lagrange.eq_interpolate`; the 256 evaluation points
+are distinct by `rsPoints_nodup`). -/
+theorem rs256_scalar_identity : RS256_ScalarIdentity :=
+  fun k n hk hkn hn ids hl hnd hb => scalarRecover_all k n hk hkn hn ids hl hnd hb
+
+/-- **zfec's code (as transcribed in `rs256`) is MDS for every 1 ≤ k ≤ N ≤ 256** on blocks of bytes of
+any length: the former assumption `RS256_MDS` is a theorem. -/
+theorem rs256_mds : RS256_MDS := rs256_mds_of_scalar_identity rs256_scalar_identity
+
+/-- C36, bare pipeline, for the code the repo actually uses — no hypothesis on the code -/
+theorem zfec_code_any_k_blocks_decode (k n : Nat) (hk : 1 ≤ k) (hkn : k ≤ n) (hn : n ≤ 256)
+    (seg : Block) (supplied : List (Nat × Block)) (hlen : k ≤ supplied.length)
+    (hnd : (supplied.map (·.1)).Nodup)
+    (hgen : ∀ p ∈ supplied, (encodeSegment (rs256 k n) k seg)[p.1]? = some p.2) :
+    decodeSegment (rs256 k n) k seg.length supplied = seg :=
+  rs256_any_k_blocks_decode rs256_mds k n hk hkn hn seg supplied hlen hnd hgen
+
+set_option maxRecDepth 100000 in
+example : decodeSegment (rs256 2 7) 2 3 [(6, [0x41, 0x42]), (5, [0x21, 0x22])] = [0x01, 0x02, 0x03] ∧
+    encodeSegment (rs256 2 7) 2 [0x01, 0x02, 0x03] =
+      [[0x01, 0x02], [0x03, 0x00], [0x05, 0x06], [0x09, 0x0a], [0x11, 0x12], [0x21, 0x22], [0x41, 0x42]] := by
+  decide
+
+/-- **The model's generator is the matrix fec.c specifies.** fec.c builds the n×k Vandermonde matrix `V`
+of the evaluation points (`V[i][c] = x_i^c`, first row `1, 0, …, 0` for `x_0 = 0`), inverts its top
+k×k block and sets `enc_matrix = V · V_top⁻¹`. For the model's `encMatrix k n` (the coefficients
+`rs256` applies): (1) `E · V_top = V` entry by entry — `Σ_j E[i][j] · x_j^c = x_i^c` for all rows
+`i < n`, columns `c < k` — and since `V_top` is invertible (distinct points) `E` is *the* matrix
+`V · V_top⁻¹`; (2) the top k×k block of `E` is the identity (systematic code). Stated in the field
+`GF` (`GF.of` reads a byte as a field element; `pt i` is share `i`'s evaluation point). -/
+theorem rs256_generator_is_vandermonde_systematic (k n : Nat) (hkn : k ≤ n) (hn : n ≤ 256) :
+    (∀ i c, i < n → c < k →
+      (List.zipWith (fun a b => GF.of a * b) ((encMatrix k n).getD i [])
+        ((List.range k).map (fun j => GF.of (pt j) ^ c))).sum = GF.of (pt i) ^ c) ∧
+    (∀ i, i < k → (encMatrix k n).getD i [] = (List.range k).map (fun j => if i = j then (1 : UInt8) else 0)) :=
+  ⟨fun i c hi hc => encMatrix_mul_vandermonde k n i c hkn hn hi hc,
+   fun i hi => encMatrix_top_identity k n i hkn hn hi⟩
+
+example : encMatrix 2 4 = [[1, 0], [0, 1], [3, 2], [5, 4]] ∧ pt 0 = 0 ∧ pt 1 = 1 ∧ pt 2 = 2 ∧ pt 3 = 4 := by
+  decide +kernel
+
+/-- the immutable path (`Encoder._encode_segment` → `DownloadNode._decode_blocks`) with zfec's code:
+no hypothesis on the code -/
+theorem immutable_any_k_blocks_decode_rs256 (fileSize k n segSize segnum : Nat) (data : Block)
+    (hk : 0 < k) (hkn : k ≤ n) (hn : n ≤ 256) (hs : 0 < segSize) (hdiv : segSize % k = 0)
+    (hdata : data.length =
+      if segnum + 1 = divCeil fileSize segSize then tailSizeOf fileSize segSize else segSize) :
+    ∃ e z blocks,
+      immEncoderSetup fileSize k n segSize = .ok e ∧
+      calculateSizes fileSize k segSize = .ok z ∧
+      immEncodeSegment rs256 e (segnum + 1 == e.numSegments) data = .ok (blocks, List.range n) ∧
+      blocks.length = n ∧ Uniform (divCeil data.length k) blocks ∧
+      ∀ sel : List (Nat × Block), sel.length = k → (sel.map (·.1)).Nodup →
+        (∀ p ∈ sel, blocks[p.1]? = some p.2) →
+        immDecodeBlocks rs256 k n segSize z segnum sel = .ok data :=
+  immutable_any_k_blocks_decode rs256 fileSize k n segSize segnum data hk hkn hn hs hdiv
+    (rs256_mds k n hk hkn hn) hdata
+
+/-- the mutable path (`Publish._encode_segment` → `Retrieve._decode_blocks`) with zfec's code -/
+theorem mutable_any_k_blocks_decode_rs256 (seg0 datalength k n segnum : Nat)
+    (crypttext : Block) (hk : 0 < k) (hkn : k ≤ n) (hn : n ≤ 256) :
+    ∃ e d, mutPublishSetup seg0 datalength k n = .ok e ∧
+      mutRetrieveSetup e.segSize datalength k n = .ok d ∧
+      (crypttext.length = (if segnum + 1 = e.numSegments then e.tailSegSize else e.segSize) →
+       ∃ blocks, mutEncodeSegment rs256 e segnum crypttext = .ok (blocks, List.range n) ∧
+         blocks.length = n ∧ Uniform (divCeil crypttext.length k) blocks ∧
+         ∀ sel : List (Nat × Block), k ≤ sel.length → (sel.map (·.1)).Nodup →
+           (∀ p ∈ sel, blocks[p.1]? = some p.2) →
+           mutDecodeBlocks rs256 d segnum sel = .ok crypttext) :=
+  mutable_any_k_blocks_decode rs256 seg0 datalength k n segnum crypttext hk hkn hn (rs256_mds k n hk hkn hn)
 
 /-- and the byte-level identity is a theorem for N ≤ 5 (so the hypothesis is not vacuous there) -/
 example (k n : Nat) (hk : 1 ≤ k) (hn : n ≤ 5) (ids : List Nat) (hl : ids.length = k) (hnd : ids.Nodup)
